@@ -129,6 +129,41 @@ func Run(repo, out, rtDir string) (*Info, error) {
 	}
 	info.Files = len(jobs)
 
+	// any other directory of the module (a change may add a sub-package) is copied
+	// verbatim, without yield points, so that the tree still builds
+	err = filepath.Walk(repo, func(p string, fi os.FileInfo, werr error) error {
+		if werr != nil {
+			return nil
+		}
+		rel, _ := filepath.Rel(repo, p)
+		if fi.IsDir() {
+			if rel != "." && (strings.HasPrefix(fi.Name(), ".") || fi.Name() == "testdata" || fi.Name() == "verifrt") {
+				return filepath.SkipDir
+			}
+			return nil
+		}
+		dir := filepath.Dir(rel)
+		if dir == "." || dir == "context" {
+			return nil
+		}
+		n := fi.Name()
+		if strings.HasSuffix(n, "_test.go") || !(strings.HasSuffix(n, ".go") || strings.HasSuffix(n, ".s") || strings.HasSuffix(n, ".h")) {
+			return nil
+		}
+		b, rerr := os.ReadFile(p)
+		if rerr != nil {
+			return rerr
+		}
+		if merr := os.MkdirAll(filepath.Join(out, dir), 0o755); merr != nil {
+			return merr
+		}
+		info.Notes = append(info.Notes, "copied without instrumentation: "+rel)
+		return os.WriteFile(filepath.Join(out, rel), b, 0o644)
+	})
+	if err != nil {
+		return nil, err
+	}
+
 	// --- type-check both packages (files selected by build constraints) ---
 	ctx := build.Default
 	ctx.BuildTags = append(ctx.BuildTags, "verif")
